@@ -45,7 +45,7 @@ func main() {
 	fs.StringVar(&o.fn, "fn", "", "function name")
 	fs.BoolVar(&o.dump, "dump", false, "dump queries of failing obligations")
 	fs.DurationVar(&o.timeout, "timeout", 0, "per-query timeout")
-	fs.IntVar(&o.jobs, "j", 8, "parallel queries (each races three solvers)")
+	fs.IntVar(&o.jobs, "j", 14, "parallel queries")
 	fs.BoolVar(&o.noCache, "no-cache", false, "ignore the result cache")
 	fs.BoolVar(&o.panics, "panics", false, "generate panic-freedom obligations")
 	fs.BoolVar(&o.verbose, "v", false, "verbose")
@@ -284,6 +284,12 @@ func cmdFn(o runOpts) int {
 	sort.Strings(ws)
 	for _, w := range ws {
 		fmt.Println("warning:", w)
+	}
+	sort.Slice(all, func(i, j int) bool { return all[i].Time > all[j].Time })
+	for i := 0; i < 5 && i < len(all); i++ {
+		if all[i].Time > 3 {
+			fmt.Printf("slow %-70s %s %.1fs\n", all[i].Name, all[i].Solver, all[i].Time)
+		}
 	}
 	fmt.Printf("%d/%d obligations discharged in %.1fs (solver wins %v, cached %d)\n", nOK, len(all), time.Since(t0).Seconds(), pool.wins, pool.cached)
 	return rc
